@@ -41,4 +41,4 @@ def jobs(tier):
     return J
 
 
-META = {'functions': [], 'undecided_part': '', 'trusted_base': ['register-table models in harness/c16_dup.c', 'pool allocator model in harness/c16_dup.c', 'models/error.h']}
+META = {'functions': ['_MIR_duplicate_func_insns', '_MIR_restore_func_insns', 'store_labels_for_duplication', 'redirect_duplicated_labels', 'MIR_copy_insn', 'generate_func_code (already-generated protocol)'], 'undecided_part': '', 'trusted_base': ['register-table models in harness/c16_dup.c', 'pool allocator model in harness/c16_dup.c', 'models/error.h']}
